@@ -25,6 +25,19 @@ pub struct ConfigModel {
     pub plugins: Vec<String>,
 }
 
+/// Parts of the configuration that the CLI invocation supplies through flags
+/// (`--schema`, `--operation`, `--schema-output`) instead of, or on top of, the config file.
+#[derive(Clone, Debug, Serialize, Deserialize, Default)]
+pub struct FlagOverrides {
+    /// no config file at all: everything comes from flags, the working directory is the root
+    pub no_config: bool,
+    pub schema: bool,
+    pub operation: bool,
+    pub schema_output: bool,
+    /// the config file holds a decoy value for an overridden key (otherwise the key is absent)
+    pub decoy: bool,
+}
+
 #[derive(Clone, Debug, Serialize, Deserialize)]
 pub struct Project {
     pub schema: SchemaModel,
@@ -42,6 +55,8 @@ pub struct Project {
     /// the introspection query (`{"__schema": ..}`, optionally below `data`)
     #[serde(default)]
     pub schema_format: String,
+    #[serde(default)]
+    pub flags: FlagOverrides,
 }
 
 #[derive(Clone, Debug, Default)]
@@ -60,6 +75,8 @@ pub struct ProjectOpts {
     pub cover_fragments: bool,
     /// x/100 of the projects describe their schema by an introspection JSON file
     pub introspection_pct: u32,
+    /// x/100 of the projects pass part of (or all of) their configuration as CLI flags
+    pub flag_overrides_pct: u32,
 }
 
 pub const SANDBOX: &str = "/nvw";
@@ -116,7 +133,9 @@ impl Project {
     /// The full set of input files as (absolute path, text).
     pub fn files(&self) -> Vec<(String, String)> {
         let mut v = Vec::new();
-        v.push((self.config_path(), self.config_text()));
+        if !self.flags.no_config {
+            v.push((self.config_path(), self.config_text()));
+        }
         for i in 0..self.schema_paths.len() {
             v.push((self.schema_abs(i), self.schema_text(i)));
         }
@@ -143,12 +162,32 @@ impl Project {
         if !c.plugins.is_empty() {
             nitro.insert("plugins".into(), json!(c.plugins));
         }
-        nitro.insert("generate".into(), generate.clone());
-        json!({
-            "schema": glob_val(&c.schema_globs, c.schema_as_string),
-            "documents": glob_val(&c.documents_globs, c.documents_as_string),
-            "extensions": { "nitrogql": Value::Object(nitro) }
-        })
+        let fl = &self.flags;
+        let mut generate = generate.clone();
+        if fl.schema_output && !fl.no_config {
+            // the flag wins over whatever the file says
+            if let Some(o) = generate.as_object_mut() {
+                if fl.decoy {
+                    o.insert("schemaOutput".into(), json!("zz-decoy/schema.d.ts"));
+                } else {
+                    o.remove("schemaOutput");
+                }
+            }
+        }
+        nitro.insert("generate".into(), generate);
+        let mut top = serde_json::Map::new();
+        if !(fl.schema && !fl.no_config) {
+            top.insert("schema".into(), glob_val(&c.schema_globs, c.schema_as_string));
+        } else if fl.decoy {
+            top.insert("schema".into(), json!("./zz-decoy-schema/**/*.graphql"));
+        }
+        if !(fl.operation && !fl.no_config) {
+            top.insert("documents".into(), glob_val(&c.documents_globs, c.documents_as_string));
+        } else if fl.decoy {
+            top.insert("documents".into(), json!(["./zz-decoy-ops/*.graphql"]));
+        }
+        top.insert("extensions".into(), json!({ "nitrogql": Value::Object(nitro) }));
+        Value::Object(top)
     }
 
     pub fn config_text(&self) -> String {
@@ -165,8 +204,36 @@ impl Project {
         }
     }
 
+    /// CLI flags that carry configuration (after the commands)
+    pub fn flag_args(&self) -> Vec<String> {
+        let fl = &self.flags;
+        let mut a = Vec::new();
+        if fl.schema || fl.no_config {
+            for g in &self.config.schema_globs {
+                a.push("--schema".into());
+                a.push(g.clone());
+            }
+        }
+        if fl.operation || fl.no_config {
+            for g in &self.config.documents_globs {
+                a.push("--operation".into());
+                a.push(g.clone());
+            }
+        }
+        if fl.schema_output || fl.no_config {
+            if let Some(so) = self.gen_str("schemaOutput") {
+                a.push("--schema-output".into());
+                a.push(so);
+            }
+        }
+        a
+    }
+
     /// CLI arguments that select the config
     pub fn config_args(&self) -> Vec<String> {
+        if self.flags.no_config {
+            return vec![];
+        }
         if self.config.explicit {
             let rel = indep::relative_spec(&format!("{}/x", self.cwd), &self.config_path());
             vec!["-c".into(), rel]
@@ -227,7 +294,10 @@ pub fn gen_project(rng: &mut Rng, o: &ProjectOpts) -> Project {
     let mut r_lay = rng.fork("layout");
     let mut r_cfg = rng.fork("config");
 
-    let schema = wgen::gen_schema(&mut r_schema, &o.schema);
+    let mut schema = wgen::gen_schema(&mut r_schema, &o.schema);
+    // ---- configuration through flags (decided first: it constrains what the config can say)
+    let mut r_flags = rng.fork("flags");
+    let flag_choice: Option<usize> = (o.flag_overrides_pct > 0 && (r_flags.below(100) as u32) < o.flag_overrides_pct).then(|| r_flags.below(6));
 
     // ---- layout
     let depth = r_lay.below(3);
@@ -248,6 +318,12 @@ pub fn gen_project(rng: &mut Rng, o: &ProjectOpts) -> Project {
     let schema_dir = *r_lay.pick(&["schema", "graphql/schema", "src-schema", "defs/a", "defs/a/b"]);
     let schema_names = ["base", "types", "extra"];
     let introspection = o.introspection_pct > 0 && (rng.fork("schema_format").below(100) as u32) < o.introspection_pct;
+    let has_custom_scalars = schema.types.iter().any(|t| t.kind == Kind::Scalar);
+    // without a config file the TypeScript types of custom scalars can only come from the SDL
+    let flag_choice = if flag_choice == Some(0) && introspection && has_custom_scalars { Some(4) } else { flag_choice };
+    let no_config = flag_choice == Some(0);
+    schema.ts_type_directives = !introspection && (no_config || rng.fork("ts_type_directives").chance(1, 4));
+    let scalar_types_in_config = !no_config && !(schema.ts_type_directives && rng.fork("ts_type_only").chance(1, 2));
     let schema_paths: Vec<String> = if introspection {
         vec![format!("{schema_dir}/{}.json", *rng.fork("schema_format_name").pick(&["schema", "introspection", "api.schema"]))]
     } else {
@@ -374,7 +450,7 @@ pub fn gen_project(rng: &mut Rng, o: &ProjectOpts) -> Project {
     // type
     let mut ty = serde_json::Map::new();
     let mut st = serde_json::Map::new();
-    for t in schema.types.iter().filter(|t| t.kind == Kind::Scalar) {
+    for t in schema.types.iter().filter(|t| t.kind == Kind::Scalar && scalar_types_in_config) {
         let v = match r_cfg.below(3) {
             0 => json!("string"),
             1 => json!({"send": "string | Date", "receive": "string"}),
@@ -437,7 +513,37 @@ pub fn gen_project(rng: &mut Rng, o: &ProjectOpts) -> Project {
         extra_files.push((format!("{src}/notes.txt"), "scratch\n".to_string()));
     }
 
+    // ---- configuration through flags
+    let mut flags = FlagOverrides::default();
+    let mut g = g;
+    let mut cwd = cwd;
+    let mut plugins = plugins;
+    if let Some(choice) = flag_choice {
+        match choice {
+            0 => {
+                // no config file: only what flags can say (defaults for the rest), cwd is the root
+                flags.no_config = true;
+                let so = g.get("schemaOutput").cloned();
+                g = serde_json::Map::new();
+                if let Some(so) = so {
+                    g.insert("schemaOutput".into(), so);
+                }
+                plugins = vec![];
+                cwd = root.clone();
+            }
+            1 => flags.schema = true,
+            2 => flags.operation = true,
+            3 => flags.schema_output = g.contains_key("schemaOutput"),
+            _ => {
+                flags.schema = true;
+                flags.operation = true;
+                flags.schema_output = g.contains_key("schemaOutput") && r_flags.chance(1, 2);
+            }
+        }
+        flags.decoy = r_flags.chance(1, 2);
+    }
     Project {
+        flags,
         schema,
         ops,
         schema_paths,
